@@ -218,7 +218,8 @@ func runC06(c *Ctx) {
 		n = 300
 		perProg = 0
 	}
-	progs := rtPrograms(c, n, GenOpts{})
+	progs := rtPrograms(c, n/2, GenOpts{})
+	progs = append(progs, rtProgramsGenOnly(c, n-n/2, GenOpts{Preflight: true})...)
 	var refSpecs []*TASpec
 	for _, p := range progs {
 		refSpecs = append(refSpecs, &TASpec{Name: p.Name + "#ref", Src: p.Src, MroPaths: p.MroPaths, Seed: c.Seed, StepBias: 0.4,
@@ -255,12 +256,33 @@ func runC06(c *Ctx) {
 				if (k == "badouts" || k == "missingkey" || k == "wrongtype") && strings.HasSuffix(j, ".split") {
 					continue
 				}
+				if (k == "badouts" || k == "missingkey" || k == "wrongtype") && p.Deps.NoOuts[nodePathOfJob(j[:strings.LastIndex(j, ".")])] {
+					// a stage without output parameters has no outputs to be missing, unparseable or
+					// ill-typed (mrp never reads its _outs)
+					continue
+				}
 				all = append(all, jk{j, k})
 			}
 		}
 		if perProg > 0 && len(all) > perProg {
 			c.Rng.Shuffle(len(all), func(a, b int) { all[a], all[b] = all[b], all[a] })
+			// a failing preflight call blocks everything else of its pipeline, nested pipelines included:
+			// always keep two of those
+			sort.SliceStable(all, func(a, b int) bool {
+				pa := p.Deps.Preflight[nodePathOfJob(all[a].j[:strings.LastIndex(all[a].j, ".")])]
+				pb := p.Deps.Preflight[nodePathOfJob(all[b].j[:strings.LastIndex(all[b].j, ".")])]
+				return pa && !pb
+			})
+			npf := 0
+			for npf < len(all) && npf < 2 && p.Deps.Preflight[nodePathOfJob(all[npf].j[:strings.LastIndex(all[npf].j, ".")])] {
+				npf++
+			}
+			rest := all[npf:]
+			c.Rng.Shuffle(len(rest), func(a, b int) { rest[a], rest[b] = rest[b], rest[a] })
 			all = all[:perProg]
+			if npf > 0 {
+				r.hist("fault_on_preflight_programs")
+			}
 		}
 		for _, x := range all {
 			s := &TASpec{Name: fmt.Sprintf("%s#fault:%s:%s", p.Name, x.j, x.k), Src: p.Src, MroPaths: p.MroPaths, Seed: c.Seed, StepBias: 0.4,
